@@ -25,6 +25,8 @@ if $applies; then
     if [ -z "$pkgdir" ]; then pkgdir=$(echo "$democmd" | grep -o '\./[a-zA-Z0-9_/]*' | tail -1); fi
     cp "$f" "$wt/$pkgdir/"
   done
+  # demo files kept under their package path
+  (cd "$dir" && find . -mindepth 2 -name '*_test.go') | while read -r rel; do cp "$dir/$rel" "$wt/$rel"; done
   (cd "$wt" && eval "$democmd") > "$wt/demo_with.log" 2>&1 || demo_fails=true
   git apply -R "$dir/patch.diff"
   (cd "$wt" && eval "$democmd") > "$wt/demo_without.log" 2>&1 && demo_passes=true
